@@ -56,6 +56,10 @@ def one_case(rng, tier):
     for _ in range(rng.choice([1, 1, 1, 2])):
         add({'op': rng.choice(['rate_limit', 'rate_limit', 'delay']), 'interval': rng.choice([0, 0.25, 0.5, 0.5, 1.0, 1.0, 2.0]),
              'ival_str': rng.random() < 0.25})        # '250ms' / '1s' instead of the number
+        if rng.random() < 0.06:
+            # long intervals in the string forms the API accepts ('90min', '1D', '25h'); virtual time makes them free
+            nodes[-1]['interval'] = rng.choice([5400.0, 86400.0, 90000.0])
+            nodes[-1]['ival_str'] = True
         if rng.random() < 0.3:
             add({'op': 'map', 'f': 'ident'})
     g = aprogs.AGen(rng)
